@@ -462,6 +462,23 @@ def run(ctx):
                    f'{owner_fn(prog, p_).split("::")[-1]}: {bad[1] if bad else "the send result is handled"} (a cancel or time limit that arrives after the task process ended but before the launcher future finished - e.g. while streamed output is flushed - finds the receiver dropped and panics the worker)', b_.loc(bad[0]) if bad else b_.loc(bi_))
     ctx.floor('R09.13', nsend, 1, 'oneshot sends in the tako worker / server runtime')
 
+    # ---- R09.14 client-supplied resource requests are validated by the server before they take effect
+    ctx.rule('R09.14', 'handle_submit validates the resource requests of the submit (gateway ResourceRequest::validate: non-zero amounts, no duplicate resource, at least one variant) before anything is stored, journaled or handed to tako; the scheduler divides by requested amounts')
+    SUBM = HQ + 'client::submit::'
+    hsb = prog.body(SUBM + 'handle_submit')
+    val = effect_blocks(prog, hsb, Effect('rq.validate', callees={'tako::gateway::ResourceRequest::validate'}))
+    eff_sites = []
+    for nm_, cs_ in (('journal', hsb.call_blocks(STREAMER + 'on_job_submitted')), ('new job id', hsb.call_blocks(HQ + 'state::State::new_job_id')),
+                     ('submit_job_desc', hsb.call_blocks(SUBM + 'submit_job_desc')), ('add_new_tasks', hsb.call_blocks(lambda c: c.endswith('ServerRef::add_new_tasks')))):
+        for x_ in cs_:
+            eff_sites.append((nm_, x_))
+    ctx.floor('R09.14', len(eff_sites), 3, 'effects of handle_submit')
+    ctx.ob('R09.14', 'handle_submit|resource requests validated before any effect', bool(val) and all(x_ not in hsb.reach_from([0], avoid=val) for nm_, x_ in eff_sites),
+           'ResourceRequest::validate is reached (for every variant of every request) on every path before the submit is journaled, gets a job id, is attached to the job or reaches tako', hsb.loc(sorted(val)[0]) if val else hsb.loc())
+    rqv = prog.body('tako::gateway::ResourceRequest::validate')
+    pv_ = effect_blocks(prog, rqv, Effect('policy.validate', callees={'tako::internal::common::resources::request::AllocationRequest::validate'}))
+    ctx.ob('R09.14', 'ResourceRequest::validate|checks every amount', bool(pv_), 'the gateway validation calls AllocationRequest::validate (zero amounts are refused there) for the entries of the request', rqv.loc())
+
     # ---- R09.6 / R09.7
     ctx.rule('R09.6', 'no panicking task lookup inside a loop whose body may remove tasks from the core (ids collected before the loop can be gone when their turn comes)')
     ctx.rule('R09.7', 'TaskQueue::remove asserts membership in one arm: every call site must be guarded by a test that implies the task is queue-resident (or no arm may diverge)')
